@@ -8,6 +8,7 @@ answer and brute-force truth, and after 'sat' the model / values are the solver'
 """
 from pysmt.environment import Environment, push_env, pop_env
 from pysmt.logics import QF_UFBV
+from pysmt.exceptions import SolverReturnedUnknownResultError
 from ..core import strictsolver as SS
 from ..core.explorer import bfs, Outcome
 from ..core.refsem import compile_term, free_symbols, const_to_value, Unconstrained
@@ -32,16 +33,23 @@ def world(env):
          "p": p, "q|p": m.Or(q, p), "u=1": m.Equals(u, m.BV(1, 2)), "h(p)": m.Function(h, [p]),
          "!p": m.Not(p), "c1=c2": m.Equals(c1, c2), "!q": m.Not(q), "u<2": m.BVULT(u, m.BV(2, 2)),
          # r only occurs in a part that simplification removes
-         "p&(r|!r)": m.And(p, m.Or(m.Symbol("r"), m.Not(m.Symbol("r"))))}
+         "p&(r|!r)": m.And(p, m.Or(m.Symbol("r"), m.Not(m.Symbol("r")))),
+         # the strict solver answers unknown while kk is declared
+         "kk|p": m.Or(m.Symbol(SS.UNKNOWN_SYMBOL), p)}
     T = {"p": p, "q": q, "u": u, "u+1": m.BVAdd(u, m.BV(1, 2)), "q&p": m.And(q, p)}
     return F, T
 
 
 EVENTS_Q = [("add", "p"), ("add", "q|p"), ("add", "u=1"), ("add", "!p"), ("add", "p&(r|!r)"), ("push", 1), ("push", 2), ("pop", 1),
-            ("pop", 2), ("pop", 0), ("push", 0), ("reset",), ("solve",), ("value", "p"), ("value", "u+1"), ("model",), ("is_sat", "!q")]
-EVENTS_T = EVENTS_Q + [("add", "h(p)"), ("add", "u<2"), ("value", "q&p"), ("is_valid", "q|p"), ("is_unsat", "!p")]
+            ("pop", 2), ("pop", 0), ("push", 0), ("reset",), ("solve",), ("value", "p"), ("value", "u+1"), ("model",), ("is_sat", "!q"),
+            ("is_sat", "kk|p")]
+EVENTS_T = EVENTS_Q + [("add", "kk|p"), ("is_valid", "kk|p"), ("add", "h(p)"), ("add", "u<2"), ("value", "q&p"), ("is_valid", "q|p"), ("is_unsat", "!p")]
 EVENTS_SORT = [("add", "c1=c2"), ("add", "pa=pb"), ("add", "pc=pd"), ("push", 1), ("push", 2), ("pop", 1), ("pop", 2),
                ("reset",), ("solve",), ("is_sat", "c1=c2"), ("is_sat", "pc=pd")]
+
+
+class _Unknown(Exception):
+    pass
 
 
 def truth(forms):
@@ -78,6 +86,9 @@ def run_history(hist, alphabet="main"):
         def live():
             return [n for l in levels for n in l]
 
+        def gives_up(names):
+            return any(SS.UNKNOWN_SYMBOL in free_symbols(F[n]) for n in names)
+
         def sig(kind):
             return "smtlibsolver:%s:%s" % ("→".join(_ab(e) for e in _minimal(hist, kind, alphabet)), kind)
 
@@ -107,6 +118,17 @@ def run_history(hist, alphabet="main"):
                     levels = [[]]
                     have_model = False
                 elif k == "solve":
+                    if gives_up(live()):
+                        have_model = False
+                        obs = "solve=unknown"
+                        try:
+                            r = solver.solve()
+                        except SolverReturnedUnknownResultError:
+                            pass
+                        else:
+                            viol = ("verdict", "solve returned %r although the solver answered unknown" % (r,))
+                        if not viol:
+                            raise _Unknown()
                     r = solver.solve()
                     want = truth([F[n] for n in live()])
                     obs = "solve=%s" % r
@@ -116,6 +138,17 @@ def run_history(hist, alphabet="main"):
                                 % (r, srv.solver.last_result, want))
                 elif k in ("is_sat", "is_valid", "is_unsat"):
                     f = F[ev[1]]
+                    if gives_up(live() + [ev[1]]):
+                        have_model = False
+                        obs = "%s=unknown" % k
+                        try:
+                            r = getattr(solver, k)(f)
+                        except SolverReturnedUnknownResultError:
+                            pass
+                        else:
+                            viol = ("verdict", "%s(%s) returned %r although the solver answered unknown" % (k, ev[1], r))
+                        if not viol:
+                            raise _Unknown()
                     r = getattr(solver, k)(f)
                     fs = [F[n] for n in live()]
                     if k == "is_sat":
@@ -170,6 +203,8 @@ def run_history(hist, alphabet="main"):
                             if not model.satisfies(F[n]):
                                 viol = ("model", "the model does not satisfy the live assertion %s" % n)
                                 break
+            except _Unknown:
+                pass        # the solver gave up and the call said so: the invariants below still apply
             except SS.WouldBlock:
                 viol = ("blocks", "%s: a read would block forever (pending %r)" % (k, srv.pending()))
             except Exception as e:
